@@ -5,7 +5,7 @@ cd /verif
 git -C /repo diff --quiet || { echo "/repo has local changes"; exit 2; }
 git -C /repo apply /verif/seeded/$name/patch.diff || exit 2
 for p in "$@"; do
-  out=$(python3 check.py $p ${TIER:-quick} 2>&1); rc=$?
+  mkdir -p work/seed-evidence; out=$(VERIF_EVIDENCE_DIR=/verif/work/seed-evidence python3 check.py $p ${TIER:-quick} 2>&1); rc=$?
   echo "[$name] $p rc=$rc :: $(echo "$out" | grep -E "VIOLATION|quick:|thorough:" | tr '\n' ' ' | cut -c1-400)"
 done
 git -C /repo checkout -- .
